@@ -783,3 +783,67 @@ fn bmoc_fixed_builder_empty() {
   let mut b = BMOCBuilderFixedDepth::with_capacity(kani::any(), kani::any(), 2);
   assert!(b.to_bmoc().is_none(), "C15 nothing pushed => nothing returned");
 }
+
+// ---------------------------------------------------------------------------------------------
+// C08: contract of not_in_cell_4_or on its own (the loop that `or` enters when a partial coarse
+// cell overlaps full cells), with n further entries in the iterator: reaches the multi-entry
+// cases the whole-operator harness cannot (or 1x2, 1x3).
+// ---------------------------------------------------------------------------------------------
+fn check_nico(n: usize) {
+  let dmax: u8 = kani::any();
+  kani::assume(1 <= dmax && dmax <= 3);
+  // low resolution partial cell
+  let ld: u8 = kani::any(); let lh: u16 = kani::any();
+  kani::assume(ld < dmax && (lh as u64) < n_hash(ld));
+  let low = Cell { raw_value: build_raw_value(ld, lh as u64, false, dmax), depth: ld, hash: lh as u64, is_full: false };
+  // first full cell strictly inside it, then n further entries (any, after it)
+  let rest = any_op(dmax, n);
+  let c0 = any_e(dmax);
+  kani::assume(c0.f && c0.d > ld && (c0.h >> (2 * (c0.d - ld) as u32)) == lh as u64);
+  if n >= 1 { kani::assume(e_hi(&c0, dmax) <= e_lo(&rest.e[0], dmax)); }
+  let c = Cell { raw_value: build_raw_value(c0.d, c0.h, true, dmax), depth: c0.d, hash: c0.h, is_full: true };
+  let gc: u64 = kani::any();
+  kani::assume(gc < n_hash(dmax));
+  g_reset(gc, dmax);
+  unsafe { G_LAST_HI = shl(lh as u64, dmax - ld); }
+  let mut it = (&rest.bmoc).into_iter();
+  let mut b = BMOCBuilderUnsafe { depth_max: dmax, entries: None };
+  let dummy = BMOC { depth_max: dmax, entries: Box::new([]) };
+  let ret = dummy.not_in_cell_4_or(&low, c, &mut it, &mut b);
+  let (last_hi, state, count, ok) = g_snapshot();
+  let l_lo = shl(lh as u64, dmax - ld); let l_hi = shl(lh as u64 + 1, dmax - ld);
+  assert!(ok && count <= 1, "C09 not_in_cell_4_or pushes valid, ordered, disjoint cells");
+  assert!(last_hi == l_hi, "C08 not_in_cell_4_or fills the coarse cell exactly up to its end");
+  if l_lo <= gc && gc < l_hi {
+    // inside the coarse partial cell: full where a full entry covers it, partial elsewhere
+    let mut s = if e_lo(&c0, dmax) <= gc && gc < e_hi(&c0, dmax) { 2 } else { 1 };
+    let mut k = 0;
+    while k < 3 { if k < n && e_lo(&rest.e[k], dmax) <= gc && gc < e_hi(&rest.e[k], dmax) && rest.e[k].f { s = 2; } k += 1; }
+    assert!(state == s, "C08 or: inside a partial coarse cell the result is the pointwise maximum");
+  } else {
+    assert!(count == 0, "C08 not_in_cell_4_or does not touch cells outside the coarse cell");
+  }
+  // returned cell: the first remaining entry that is not inside the coarse cell
+  let mut k = 0; let mut first_out: Option<usize> = None;
+  while k < 3 { if k < n && first_out.is_none() && !(l_lo <= e_lo(&rest.e[k], dmax) && e_lo(&rest.e[k], dmax) < l_hi) { first_out = Some(k); } k += 1; }
+  match (ret, first_out) {
+    (Some(r), Some(k)) => assert!(r.depth == rest.e[k].d && r.hash == rest.e[k].h && r.is_full == rest.e[k].f, "C08 not_in_cell_4_or returns the first cell after the coarse cell"),
+    (None, None) => {},
+    _ => assert!(false, "C08 not_in_cell_4_or returns the first cell after the coarse cell"),
+  }
+  kani::cover!(n == 0 || (rest.e[0].f && l_lo <= e_lo(&rest.e[0], dmax) && e_lo(&rest.e[0], dmax) < l_hi), "a second full cell inside the coarse cell");
+}
+macro_rules! nico_harness {
+  ($name:ident, $n:literal, $uw:literal) => {
+    #[kani::proof]
+    #[kani::stub(BMOCBuilderUnsafe::push, ghost_push)]
+    #[kani::stub(go_down, ghost_go_down)]
+    #[kani::stub(go_up, ghost_go_up)]
+    #[kani::unwind($uw)]
+    fn $name() { check_nico($n) }
+  };
+}
+nico_harness!(bmoc_nico_0, 0, 5);
+nico_harness!(bmoc_nico_1, 1, 5);
+nico_harness!(bmoc_nico_2, 2, 6);
+nico_harness!(bmoc_nico_3, 3, 7);
